@@ -427,6 +427,15 @@ def scale_specs(tier):
     # > 1000 tensor cells (str(tensor) is abbreviated by NumPy beyond that), YAML-expressible, host firewalls
     mk("scale-12-12-12", 12, shape="12-12-12", topo="chain", sw="2os2s2p", exploits="e0e3", privescs="two",
        discovery="zero", sensitive="two_subnets", hostfw="deny_pivot", fw="dmz_s1")
+    # the same size with the host rows in reverse address order (deep subnets first) and inner rules that let only
+    # s1 through: s0 exploits need a pivot inside the target's own subnet, i.e. in the LOW rows
+    mk("scale-12-12-12-rev", 12, shape="12-12-12", topo="chain", sw="2os2s2p", exploits="e0e3", privescs="two",
+       discovery="zero", sensitive="two_subnets", hostfw="none", fw="one_s1", host_order="reversed")
+    # ... and every other host of the deepest subnet refuses s0 from (3, 0), the first pivot gained there: the s0
+    # exploits inside subnet 3 depend on exactly which of its hosts are held
+    for a, h in out[-1]["hosts"].items():
+        if a[0] == 3 and a != (3, 0):
+            h["firewall"] = {(3, 0): [out[-1]["services"][0]]}
     if tier == "thorough":
         mk("scale-1-70", 16, shape="1-70", topo="chain", sw="1os1s1p", exploits="e0", hostfw="none", discovery="one",
            sensitive="last")
